@@ -202,6 +202,9 @@ func (e *Exec) sample() {
 	}
 }
 
+// Dirty reports whether publisher p may have announcements that were not handled yet.
+func (e *Exec) Dirty(p int) bool { return e.dirty[p] }
+
 // busy reports whether publisher p may have a sync in flight or pending.
 func (e *Exec) busy(p int) bool {
 	if e.Pubs[p].InFlight() > 0 {
